@@ -31,10 +31,13 @@ ssize_t mpt_buffer_cut(MPT_STRUCT(buffer) *buf, size_t off, size_t len)
 	}
 	/* only keep data till offset */
 	if (!len) {
-		keep = off;
+		if (off > buf->_used) {
+			return MPT_ERROR(MissingData);
+		}
+		len = buf->_used - off;
 	}
 	/* dat must be in range */
-	else if ((keep = buf->_used - len) < off) {
+	if ((keep = buf->_used - len) < off) {
 		return MPT_ERROR(MissingData);
 	}
 	/* data start */
